@@ -276,6 +276,17 @@ def run_property(pid, tier, seed, logdir):
                 jobs.append(wrap("c04_size_limit_shape%d" % i, (lambda shape=shape, ed=ed, sf=sf: props_dns.size_obligation(prog, en, structs, shape, ed, sf)),
                                  "DNSPkt::serialise_with_size on a message with answer/authority/additional rdata lengths %s (root owner names, 3-octet question label), %s OPT record, size limit symbolic over 512..65535, ids/TTLs/types/rcode symbolic%s" % (shape, "with" if ed else "without", ", all header flags symbolic" if sf else ""),
                                  "independent structural oracle: output length <= limit; whole records dropped from the end only; header counts = records present; TC set exactly when a record was dropped; length = header + question + kept records; id/flag octets"))
+            # the limit each transport applies (dns/mod.rs run_udp / run_tcp), measured against the property's limit
+            tshapes = [(((200, 200, 200), (), ()), False), (((300,), (300,), (4,)), True), (((500,), (), ()), True), (((40,), (), ()), False)]
+            if tier == "thorough":
+                tshapes += [(((120, 120, 120, 120, 120), (), ()), True), (((255, 255), (255,), (255,)), False), (((1300,), (), ()), True)]
+            for via in ("udp", "tcp"):
+                for i, (shape, ed) in enumerate(tshapes):
+                    jobs.append(wrap("c04_%s_limit_shape%d" % (via, i), (lambda shape=shape, ed=ed, via=via: props_dns.size_obligation(prog, en, structs, shape, ed, False, via)),
+                                     "the octets run_%s sends for a reply with answer/authority/additional rdata lengths %s, %s OPT record, to a query advertising any payload size 0..65535: the initialiser of the "
+                                     "sent buffer is lifted verbatim from run_%s (lib/lift.py) and executed from MIR together with prepare_to_send / serialise_with_size" % (via, shape, "with" if ed else "without", via),
+                                     ("UDP: length <= max(512, advertised size); " if via == "udp" else "TCP: length <= 65535 and complete (no record dropped, TC clear) whenever the whole reply fits in 65535 octets; ") +
+                                     "whole records dropped from the end only, header counts = records present, TC set exactly when a record was dropped"))
         else:
             L = lambda *x: tuple(x)  # noqa
             layouts = [
